@@ -55,7 +55,17 @@ def spec_items(tier):
 def items(tier, seed):
     ms = [1, 2, 3] if tier == 'quick' else [1, 2, 3, 4, 5]
     eps = [1, 2, 3] if tier == 'quick' else [1, 2, 3, 4]
-    for i, it in enumerate(spec_items(tier)):
+    extra = []
+    one = F(1)
+    for leak in (F(1, 4), F(1, 2)):
+        # two-state low-reward cycle that leaks slowly to the goal under a discount close to 1 (planning needs many sweeps)
+        T = ((('a', ((1, one),), F(0)), ('b', ((0, 1 - leak), (2, leak)), (F(0), F(1)))),
+             (('a', ((0, one),), F(0)), ('b', ((1, 1 - leak), (2, leak)), (F(0), F(1)))),
+             (('a', ((2, one),), F(0)), ('b', ((2, one),), F(0))))
+        extra.append(('mdp', 3, T, (2,), ((0, one),), F(999, 1000)))
+    for i, it in enumerate(list(spec_items(tier)) + extra):
+        if i % 2 == 1:
+            it = build.with_ns_rewards(it)
         cfgs = sorted({(ms[(i + j + seed) % len(ms)], eps[(i // 2 + 2 * j + seed) % len(eps)]) for j in range(3 if tier == 'quick' else 6)})
         yield (it, (i + seed) % 5, tuple(cfgs))
 
